@@ -6,22 +6,22 @@
    Route: validator = recogniser sp_pattern (FragSim.v, symbolic execution of the model on fragment inputs),
           sp_pattern <-> Pattern (FragGrammar.v, soundness by induction on the fuel, completeness by induction on the
           derivation with follow-set conditions).
-   NOT covered: everything outside the fragment (see Grammar.v header): escapes (incl. \b \B), classes, braced
-   quantifiers, named groups, back-references, and the early errors attached to them. *)
+   NOT covered: everything outside the fragment (see Grammar.v header): decimal/hex/unicode/property/control-letter
+   escapes and legacy octal, classes, braced quantifiers, named groups, back-references, and their early errors. *)
 From Coq Require Import List NArith Bool.
 From V Require Import Common.Str Regex.Reader Regex.Validator Regex.ValidatorReset Regex.ValidatorTotal
   Regex.Grammar Regex.FragParser Regex.FragGrammar Regex.FragSim.
 Import ListNotations.
 Open Scope N_scope.
 
-Lemma in_fragment_chars_ok l : in_fragment l = true -> chars_ok l = true.
-Proof. unfold in_fragment. intros H. apply andb_true_iff in H. apply H. Qed.
+Lemma in_fragment_parts u l : in_fragment u l = true -> scan false l = true /\ chars_ok u l = true.
+Proof. unfold in_fragment. intros H. apply andb_true_iff in H. exact H. Qed.
 
-Theorem fragment_equiv : forall st s u, in_fragment (visible_units s u) = true ->
+Theorem fragment_equiv : forall st s u, in_fragment u (visible_units s u) = true ->
   (verdict_of (validate_pattern st s u) = VOk <-> Pattern u (visible_units s u)).
 Proof.
-  intros st s u Hf. pose proof (validate_pattern_sim st s u Hf) as Hsim.
-  pose proof (in_fragment_chars_ok _ Hf) as Hc. split.
+  intros st s u Hf. destruct (in_fragment_parts _ _ Hf) as [Hs Hc].
+  pose proof (validate_pattern_sim st s u Hs) as Hsim. split.
   - intros Hok. destruct (validate_pattern st s u) as [a t|m t|p|]; try discriminate.
     destruct (sp_pattern u (visible_units s u)) as [a' l'| |] eqn:E; try contradiction.
     exact (sp_pattern_sound u _ a' l' E).
@@ -30,7 +30,7 @@ Proof.
 Qed.
 
 (* on the fragment a rejected input is rejected with a SyntaxErr (never a panic / fuel exhaustion) *)
-Corollary fragment_reject : forall st s u, in_fragment (visible_units s u) = true -> ~ Pattern u (visible_units s u) ->
+Corollary fragment_reject : forall st s u, in_fragment u (visible_units s u) = true -> ~ Pattern u (visible_units s u) ->
   exists m, verdict_of (validate_pattern st s u) = VErr m.
 Proof.
   intros st s u Hf Hn. destruct (validate_pattern st s u) as [a t|m t|p|] eqn:E.
@@ -41,44 +41,51 @@ Proof.
 Qed.
 
 (* with the u flag the units are the code points themselves *)
-Corollary fragment_equiv_u : forall st s, in_fragment s = true ->
+Corollary fragment_equiv_u : forall st s, in_fragment true s = true ->
   (verdict_of (validate_pattern st s true) = VOk <-> Pattern true s).
 Proof. intros st s Hf. exact (fragment_equiv st s true Hf). Qed.
 
 (* ---- non-vacuity ---- *)
-Lemma decide_pattern u l : chars_ok l = true -> recognises u l = true -> Pattern u l.
+Lemma decide_pattern u l : chars_ok u l = true -> recognises u l = true -> Pattern u l.
 Proof. intros Hc Hr. apply (recognises_iff_Pattern u l Hc). exact Hr. Qed.
-Lemma decide_not_pattern u l : chars_ok l = true -> recognises u l = false -> ~ Pattern u l.
+Lemma decide_not_pattern u l : chars_ok u l = true -> recognises u l = false -> ~ Pattern u l.
 Proof. intros Hc Hr Hp. apply (recognises_iff_Pattern u l Hc) in Hp. congruence. Qed.
 
-(* the 31 units of   ^ ( a | b STAR ) PLUS ? ( ? < = c ) ( ? ! d ) ( ? : e | ) ? $   -- anchors, nested alternation,
-   lazy quantifier, look-behind, negative look-ahead, non-capturing group: a Pattern in both modes *)
+(* the units of   ^ \b ( a | \d STAR ) PLUS ? ( ? < = \. ) ( ? ! \w ) ( ? : e | ) ? \B $
+   -- anchors, word boundaries, nested alternation, class escape, lazy quantifier, look-behind with an identity
+   escape, negative look-ahead, non-capturing group: a Pattern in both modes *)
 Definition ex_valid : list N :=
-  [94; 40;97;124;98;42;41; 43;63; 40;63;60;61;99;41; 40;63;33;100;41; 40;63;58;101;124;41; 63; 36].
-Example ex_valid_ok : in_fragment ex_valid = true. Proof. reflexivity. Qed.
+  [94; 92;98; 40;97;124;92;100;42;41; 43;63; 40;63;60;61;92;46;41; 40;63;33;92;119;41; 40;63;58;101;124;41; 63; 92;66; 36].
+Example ex_valid_ok : forall u, in_fragment u ex_valid = true. Proof. intros [|]; reflexivity. Qed.
 Example ex_valid_pattern : forall u, Pattern u ex_valid.
 Proof. intros u. apply decide_pattern; destruct u; reflexivity. Qed.
 Example ex_valid_accepted : forall st u, verdict_of (validate_pattern st ex_valid u) = VOk.
 Proof. intros st u. apply fragment_equiv; [destruct u; reflexivity|]. destruct u; apply ex_valid_pattern. Qed.
 
-(* Annex B: a quantified look-ahead  ( ? = a ) STAR b  is a Pattern without u only *)
+(* Annex B: a quantified look-ahead  ( ? = a ) STAR b  and the identity escape  \a  are Patterns without u only *)
 Definition ex_annexb : list N := [40;63;61;97;41;42;98].
-Example ex_annexb_modes : Pattern false ex_annexb /\ ~ Pattern true ex_annexb.
-Proof. split; [apply decide_pattern|apply decide_not_pattern]; reflexivity. Qed.
-Example ex_annexb_validator : forall st,
-  verdict_of (validate_pattern st ex_annexb false) = VOk /\ verdict_of (validate_pattern st ex_annexb true) <> VOk.
+Definition ex_annexb_escape : list N := [92;97].
+Example ex_annexb_modes : (Pattern false ex_annexb /\ ~ Pattern true ex_annexb) /\
+                          (Pattern false ex_annexb_escape /\ ~ Pattern true ex_annexb_escape).
+Proof. repeat split; first [apply decide_pattern | apply decide_not_pattern]; reflexivity. Qed.
+Example ex_annexb_validator : forall st l, In l [ex_annexb; ex_annexb_escape] ->
+  verdict_of (validate_pattern st l false) = VOk /\ verdict_of (validate_pattern st l true) <> VOk.
 Proof.
-  intros st. split.
+  intros st l Hin. cbn [In] in Hin. destruct Hin as [<-|[<-|[]]]; split.
   - apply (fragment_equiv st ex_annexb false eq_refl). apply ex_annexb_modes.
-  - intros H. apply (fragment_equiv st ex_annexb true eq_refl) in H. exact (proj2 ex_annexb_modes H).
+  - intros H. apply (fragment_equiv st ex_annexb true eq_refl) in H. exact (proj2 (proj1 ex_annexb_modes) H).
+  - apply (fragment_equiv st ex_annexb_escape false eq_refl). apply ex_annexb_modes.
+  - intros H. apply (fragment_equiv st ex_annexb_escape true eq_refl) in H. exact (proj2 (proj2 ex_annexb_modes) H).
 Qed.
 
-(* `a` STAR STAR, a lone `(`, a quantified anchor `^` STAR and a quantified look-behind are not Patterns (either mode) *)
-Example ex_invalid : forall st u l, In l [[97;42;42]; [40]; [94;42]; [40;63;60;61;97;41;42]] ->
+(* `a` STAR STAR, a lone `(`, a quantified anchor, a quantified look-behind, a quantified word boundary and
+   a doubly quantified class escape are not Patterns (either mode) *)
+Example ex_invalid : forall st u l,
+  In l [[97;42;42]; [40]; [94;42]; [40;63;60;61;97;41;42]; [92;98;42]; [92;100;42;42]] ->
   ~ Pattern u (visible_units l u) /\ verdict_of (validate_pattern st l u) <> VOk.
 Proof.
   intros st u l Hin.
-  assert (Hn : ~ Pattern u (visible_units l u) /\ in_fragment (visible_units l u) = true).
+  assert (Hn : ~ Pattern u (visible_units l u) /\ in_fragment u (visible_units l u) = true).
   { cbn [In] in Hin. repeat (destruct Hin as [<-|Hin]; [split; [apply decide_not_pattern|]; destruct u; reflexivity|]). contradiction. }
   destruct Hn as [Hn Hf]. split; [exact Hn|]. intros Hok. apply Hn. apply (fragment_equiv st l u Hf). exact Hok.
 Qed.
